@@ -103,6 +103,7 @@ type c19Case struct {
 	descs []string
 	init  int
 	names []string
+	debug bool
 }
 
 type c19Obs struct {
@@ -118,6 +119,8 @@ type c19Obs struct {
 	traceA  string
 	prep3   string
 	dump3   string
+	prepOut string   // what the library printed during Prepare
+	outs    []string // … and during each run (print(), diagnostics)
 }
 
 // c19PtrObj has pointer members: whatever the engine makes of them must not
@@ -197,7 +200,13 @@ func (p *c19) execute(cs *c19Case, pol *verifsim.OrderPolicy) *c19Obs {
 		e.SetVariable("g0", &object.Integer{Value: 1})
 		e.SetVariable("g1", &object.Integer{Value: 2})
 	}
+	if cs.debug {
+		// the library's own diagnostics (what `evalfilter run -debug` shows)
+		e.SetVariable("DEBUG", &object.Boolean{Value: true})
+	}
+	verifsim.TakeStdout()
 	err, esc := doPrepare(e, cs.opt)
+	ob.prepOut = verifsim.TakeStdout()
 	if err != nil || esc != nil {
 		ob.prepErr = fmt.Sprint(err, esc)
 		return ob
@@ -211,7 +220,9 @@ func (p *c19) execute(cs *c19Case, pol *verifsim.OrderPolicy) *c19Obs {
 		h.Trace = h.Trace[:0]
 		h.nMaybe = 0
 		var r Result
+		verifsim.TakeStdout()
 		under(ctx, func() { r = doExecute(e, o) })
+		ob.outs = append(ob.outs, verifsim.TakeStdout())
 		ob.results = append(ob.results, r.String())
 		ob.traces = append(ob.traces, joinTrace(h.Trace))
 		ob.cost += ctx.Ticks
@@ -272,7 +283,13 @@ func (a *c19Obs) diff(b *c19Obs) (string, string) {
 		}
 		return what, firstDiff(a.dump1, b.dump1)
 	}
+	if a.prepOut != b.prepOut {
+		return "printed-during-prepare", firstDiff(a.prepOut, b.prepOut)
+	}
 	for i := range a.results {
+		if i < len(b.outs) && i < len(a.outs) && a.outs[i] != b.outs[i] {
+			return "printed-output", fmt.Sprintf("run %d: %s", i, firstDiff(a.outs[i], b.outs[i]))
+		}
 		if i < len(b.results) && a.results[i] != b.results[i] {
 			return "result", fmt.Sprintf("run %d: %s vs %s", i, a.results[i], b.results[i])
 		}
@@ -448,6 +465,7 @@ func (p *c19) Run(c *verifsim.Chooser, st *Stats, render bool) *Outcome {
 			cs.descs = append(cs.descs, d)
 		}
 	}
+	cs.debug = mode == 0 && c.Intn(6) == 1
 	currentDesc.Store("map-order case: " + clip(strings.ReplaceAll(cs.text, "\n", " "), 160))
 	seedA, seedB := uint64(c.Intn(1<<30)), uint64(c.Intn(1<<30))+7
 
